@@ -52,8 +52,8 @@ THETA_PROFILES = {
     # thorough: three items in up to three records, two edits
     "TB": dict(MaxRecs=3, MaxItems=3, MaxParams=6, MaxEdits=2, Forms="{1, 3, 5}",
                LowKinds='{"none", "inf", "val"}', UpKinds='{"none", "val"}', Reps="{2}",
-               NameOpts="{TRUE, FALSE}", SpOpts="{0, 1}", RepNames="FALSE", TailForms="{1, 3, 5}",
-               TailLowKinds='{"none", "val"}', TailUpKinds='{"none", "val"}', NEditVals=1, NSlices=300),
+               NameOpts="{TRUE, FALSE}", SpOpts="{0}", RepNames="FALSE", TailForms="{1, 3, 5}",
+               TailLowKinds='{"none", "val"}', TailUpKinds='{"none", "val"}', NEditVals=1, NSlices=600),
     # thorough: three edits on small layouts
     "TC": dict(MaxRecs=2, MaxItems=2, MaxParams=4, MaxEdits=3, Forms="{1, 3, 5}",
                LowKinds='{"none", "val"}', UpKinds='{"none", "val"}', Reps="{2}",
@@ -457,6 +457,7 @@ def replay_theta(case):
     steps = [{"edit": {"op": "Empty", "p": 0}, "expect": case["read"], "untouched": [list(k) for k in sorted(items)],
               "in_repeat": False, "rec_size": 0, "added_target": False, "target_form": 0, "target_named": False,
               "target_fix_in_parens": False, "rec_has_repeat": False}] + case["steps"]
+    respelled: set = set()
     for idx, s in enumerate(steps):
         e = s["edit"]
         stepinfo = {"index": idx, "op": e["op"], "in_repeat": s["in_repeat"], "rec_multi": s["rec_size"] > 1,
@@ -491,9 +492,10 @@ def replay_theta(case):
         if not theta_matches_spec(mem, s["expect"]):
             bad(stepinfo, "meaning_mismatch", f"in-memory thetas {mem} != specification {s['expect']}", code=code)
             failed = True
-        want = [spell[tuple(i)] for i in s["untouched"]]
+        want = [spell[tuple(i)] for i in s["untouched"] if spell[tuple(i)] not in respelled]
         missing = is_subseq(want, theta_items_of(code))
         if missing is not None:
+            respelled.add(missing)  # reported once, at the step that did it; the case goes on without this item
             it = next(items[k] for k in items if spell[k] == missing)
             bad(stepinfo, "spelling_changed", f"untouched item {' '.join(missing)} is no longer spelled that way in: "
                 + " | ".join(b.strip() for _, b in split_records(code, ('THE',))),
@@ -558,7 +560,7 @@ def _run(tier, seed, v, cases):
     from . import c04_omega
 
     rng = random.Random(seed)
-    budget = {"quick": (1300, 1300), "thorough": (30000, 30000)}[tier]
+    budget = {"quick": (1300, 1300), "thorough": (20000, 20000)}[tier]
     scale = float(os.environ.get("VERIF_BUDGET_SCALE", "1"))  # < 1 only for fast mutant screening
     budget = (max(50, int(budget[0] * scale)), max(50, int(budget[1] * scale)))
     th, n_th_strata = _stratified(cases["Theta"], _theta_stratum, budget[0], rng)
